@@ -145,3 +145,16 @@ M("c11-factor-sum-only", "C11", "plot/map.py", '    if thick and ((operation == 
 M("c11-mean-scaled", "C11", "plot/map.py", '    if thick and ((operation == "sum") or (operation == "nansum")):', '    if thick and (operation in ("sum", "nansum", "mean")):', "mean also multiplied by the depth step")
 M("c11-reduce-axis", "C11", "plot/map.py", "    binned = getattr(np, operation)(binned, axis=1)", "    binned = getattr(np, operation)(binned[:, ::2, ...] if binned.shape[1] > 3 else binned, axis=1)", "every second depth sample dropped for deep stacks")
 M("c11-iz-footprint", "C11", "plot/utils.py", "            + 1,\n            nz,\n        )", "            + 0,\n            nz,\n        )", "depth footprint excludes its last sample")
+
+# ---------------------------------------------------------------- C19
+M("c19-unfix-resolution-copy", "C19", "plot/map.py", "        resolution = dict(resolution)\n", "", "defaults written into the caller's resolution dict (the original defect)")
+M("c19-parse-layer-no-copy", "C19", "plot/parser.py", "    out = layer.copy()", "    out = layer", "call-level options are merged into the caller's Layer")
+M("c19-precedence-inverted", "C19", "plot/parser.py", "    if out.vmin is None:\n        out.vmin = vmin", "    if vmin is not None:\n        out.vmin = vmin", "call-level vmin overrides the layer's")
+M("c19-layer-copy-shares-kwargs", "C19", "core/layer.py", "            weights=self.weights,\n            **self.kwargs,\n        )\n\n    @property\n    def data", "            weights=self.weights,\n        )._share(self.kwargs)\n\n    def _share(self, kw):\n        self.kwargs = kw\n        return self\n\n    @property\n    def data", "Layer.copy shares the kwargs dict: norm objects and call-level extras leak into the caller's Layer")
+M("c19-kwargs-override", "C19", "plot/parser.py", "        {key: value for key, value in kwargs.items() if key not in out.kwargs}", "        {key: value for key, value in kwargs.items()}", "call-level extra keyword options override the layer's")
+M("c19-operation-call-wins", "C19", "plot/map.py", "            operations.append(layer.operation)", "            operations.append(operation)", "map uses the call-level operation for every layer (the original defect)")
+M("c19-hist2d-mode-call", "C19", "plot/histogram2d.py", '                "mode": layer.mode,', '                "mode": mode if mode is not None else layer.mode,', "histogram2d lets the call-level mode win")
+M("c19-origin-inplace", "C19", "plot/map.py", "    xyz = position - origin", "    origin.x.values[...] = origin.x.values * 1.0\n    origin.name = origin.name or 'origin'\n    xyz = position - origin", "origin renamed in place")
+M("c19-hist1d-weights-inplace", "C19", "plot/histogram1d.py", "        layer = parse_layer(layer, bins=bins, weights=weights, **kwargs)", "        layer = parse_layer(layer, bins=bins, weights=weights, **kwargs)\n        if weights is not None:\n            weights.name = 'weights'", "call-level weights Array renamed in place")
+M("c19-scatter-size-inplace", "C19", "plot/scatter.py", "                size = size.to(x.unit)", "                size = size.to(x.unit)\n                size.values[...] = np.abs(size.values)" if False else "                size = size.to(x.unit)\n                size.name = 'size'", "size Array renamed (to() returns self when units agree)")
+M("c19-bins-call-wins", "C19", "plot/parser.py", "    if out.bins is None:\n        out.bins = bins", "    if bins is not None:\n        out.bins = bins", "call-level bins override the layer's")
